@@ -79,7 +79,7 @@ public:
     {
         // the magic number used to identify the BMP file:
         // 0x42 0x4D (ASCII code points for B and M)
-        if( _io_dev.read_uint16() == 0x424D )
+        if( _io_dev.read_uint16() != bmp_signature )
         {
             io_error( "Wrong magic number for bmp file." );
         }
